@@ -1,5 +1,6 @@
 import PrimitivModel.Lemmas.CowInv
 import PrimitivModel.Lemmas.CowKernel
+import PrimitivModel.Lemmas.CowShape
 /-
 Every operation of the cow protocol, executed on the copy-on-write model, keeps
 the invariant and has on the abstraction exactly the effect the pure-value
@@ -187,6 +188,165 @@ theorem inplace2_ref {s : State} (hs : Inv s) (f : Int → Int → Int) (h g : N
                 rw [← this]; simp [dataOf, hbx]
               rw [hsrc]
               rfl
+
+/-! ### Device entry points called directly, functions of one operand -/
+
+theorem valid_of_abs {s : State} {i : Nat} {sh : Shape} {X : List Int}
+    (h : getSlot (absState s).pool i = some (some (sh, X))) :
+    ∃ b, getSlot s.pool i = some (.valid sh b) ∧ X = dataOf s.heap b := by
+  rw [abs_get] at h
+  cases hg : getSlot s.pool i with
+  | none => simp [hg] at h
+  | some hd =>
+    cases hd with
+    | invalid => simp [hg, absHandle] at h
+    | valid sh' b =>
+      simp [hg, absHandle] at h
+      exact ⟨b, by rw [h.1], h.2.symm⟩
+
+theorem accum_ref {s : State} (hs : Inv s) {dst src : Nat} (hne : dst ≠ src) {sd ss : Shape} {bd bs : Nat}
+    (hd : getSlot s.pool dst = some (.valid sd bd)) (hsrc : getSlot s.pool src = some (.valid ss bs))
+    (K : List Int → List Int → List Int) (hK : ∀ D S, (K D S).length = D.length) :
+    Ref (accum s dst src sd ss K) (Spec.accum (absState s) dst src K) := by
+  obtain ⟨hs1, habs, ⟨b', bf', hp', hb', hrc, hdata, hlen⟩, hoth⟩ := mutableHandle_spec hs hd
+  have h1 : rcOf (mutableHandle s dst).heap b' = 1 := by simp [rcOf, hb', hrc]
+  have e1 : absPool (mutableHandle s dst).heap (mutableHandle s dst).pool = absPool s.heap s.pool :=
+    congrArg AState.pool habs
+  have e2 : (mutableHandle s dst).pvalid = s.pvalid := congrArg AState.pvalid habs
+  have hg1 : getSlot (mutableHandle s dst).pool src = some (.valid ss bs) := by
+    rw [hoth src (Ne.symm hne)]; exact hsrc
+  obtain ⟨bfx, hbx, hlx⟩ := hs1.len src ss bs hg1
+  have hsrc' : bfx.data = dataOf s.heap bs := by
+    have := congrArg (fun p => getSlot p src) e1
+    simp only [getSlot_absPool, hg1, hsrc, Option.map, absHandle] at this
+    have := (Prod.mk.inj (Option.some.inj (Option.some.inj this))).2
+    rw [← this]; simp [dataOf, hbx]
+  unfold accum Spec.accum
+  rw [abs_get, abs_get, hd, hsrc]
+  simp only [hp', hg1, deref_of_slot hb' hlen, deref_of_slot hbx hlx, Option.map, absHandle]
+  refine ⟨write_inv hs1 hp' h1 _ (by rw [hK]; exact hlen), ?_, rfl⟩
+  rw [write_abs hs1 hp' h1, hdata, e1, e2, hsrc']
+  rfl
+
+theorem bwOp_ref {s : State} (hs : Inv s) (gy gx : Nat) (ok : Shape → Shape → R Bool)
+    (K : Shape → Shape → List Int → List Int → List Int)
+    (hK : ∀ sy sx D S, (K sy sx D S).length = D.length) :
+    Ref (bwOp s gy gx ok K) (Spec.bwOp (absState s) gy gx ok K) := by
+  unfold bwOp Spec.bwOp
+  rw [abs_get, abs_get]
+  cases hy : getSlot s.pool gy with
+  | none => exact Ref.same hs _
+  | some vy =>
+    cases hx : getSlot s.pool gx with
+    | none => exact Ref.same hs _
+    | some vx =>
+      simp only [Option.map]
+      by_cases he : gy = gx
+      · simp only [if_pos he]; exact Ref.same hs _
+      · simp only [if_neg he]
+        cases vy with
+        | invalid => cases vx <;> exact Ref.same hs _
+        | valid sy by_ =>
+          cases vx with
+          | invalid => exact Ref.same hs _
+          | valid sx bx =>
+            simp only [absHandle]
+            cases hok : ok sy sx with
+            | error e => cases e <;> exact Ref.same hs _
+            | ok b =>
+              cases b with
+              | false => exact Ref.same hs _
+              | true => exact accum_ref hs (Ne.symm he) hx hy _ (hK sy sx)
+
+theorem abBwOp_ref {s : State} (hs : Inv s) (g : Int → Int → Int) (gy ga gb : Nat) :
+    Ref (abBwOp g s gy ga gb) (Spec.abBwOp g (absState s) gy ga gb) := by
+  unfold abBwOp Spec.abBwOp
+  rw [abs_get, abs_get, abs_get]
+  cases hy : getSlot s.pool gy with
+  | none => exact Ref.same hs _
+  | some vy =>
+    cases ha : getSlot s.pool ga with
+    | none => exact Ref.same hs _
+    | some va =>
+      cases hb : getSlot s.pool gb with
+      | none => exact Ref.same hs _
+      | some vb =>
+        simp only [Option.map]
+        by_cases he : gy = ga ∨ gy = gb ∨ ga = gb
+        · simp only [if_pos he]; exact Ref.same hs _
+        · simp only [if_neg he]
+          have hne1 : ga ≠ gy := fun h => he (Or.inl h.symm)
+          have hne2 : gb ≠ gy := fun h => he (Or.inr (Or.inl h.symm))
+          have hne3 : gb ≠ ga := fun h => he (Or.inr (Or.inr h.symm))
+          cases vy with
+          | invalid => cases va <;> cases vb <;> exact Ref.same hs _
+          | valid sy by_ =>
+            cases va with
+            | invalid => cases vb <;> exact Ref.same hs _
+            | valid sa ba =>
+              cases vb with
+              | invalid => exact Ref.same hs _
+              | valid sb bb =>
+                simp only [absHandle]
+                cases hok : abBwOk sy sa sb with
+                | error e => cases e <;> exact Ref.same hs _
+                | ok b =>
+                  cases b with
+                  | false => exact Ref.same hs _
+                  | true =>
+                    simp only []
+                    have r1 := accum_ref hs hne1 ha hy (fun D S => arith (· + ·) sa sy D (some S))
+                      (fun D S => length_arith _ _ _ _ _)
+                    -- the first kernel succeeds on both sides
+                    have ho1 : (Spec.accum (absState s) ga gy (fun D S => arith (· + ·) sa sy D (some S))).2 = .ok := by
+                      unfold Spec.accum
+                      rw [abs_get, abs_get, ha, hy]; rfl
+                    have hm1 : (accum s ga gy sa sy (fun D S => arith (· + ·) sa sy D (some S))).2 = .ok := by
+                      rw [r1.2.2]; exact ho1
+                    rw [hm1, ho1]
+                    simp only []
+                    -- state after the first kernel: gy and gb are untouched in the abstraction
+                    have habs1 := r1.2.1
+                    have hy1 : getSlot (absState (accum s ga gy sa sy (fun D S => arith (· + ·) sa sy D (some S))).1).pool gy
+                        = some (some (sy, dataOf s.heap by_)) := by
+                      rw [habs1]
+                      unfold Spec.accum
+                      rw [abs_get, abs_get, ha, hy]
+                      simp only [Option.map, absHandle, Spec.setT]
+                      rw [getSlot_setSlot_ne _ _ (Ne.symm hne1), abs_get, hy]; rfl
+                    have hb1 : getSlot (absState (accum s ga gy sa sy (fun D S => arith (· + ·) sa sy D (some S))).1).pool gb
+                        = some (some (sb, dataOf s.heap bb)) := by
+                      rw [habs1]
+                      unfold Spec.accum
+                      rw [abs_get, abs_get, ha, hy]
+                      simp only [Option.map, absHandle, Spec.setT]
+                      rw [getSlot_setSlot_ne _ _ hne3, abs_get, hb]; rfl
+                    obtain ⟨by1, hy1', _⟩ := valid_of_abs hy1
+                    obtain ⟨bb1, hb1', _⟩ := valid_of_abs hb1
+                    have r2 := accum_ref r1.1 hne2 hb1' hy1' (fun D S => arith g sb sy D (some S))
+                      (fun D S => length_arith _ _ _ _ _)
+                    rw [habs1] at r2
+                    exact r2
+
+theorem freshOp_ref {s : State} (hs : Inv s) (h g : Nat) (rule : Shape → R Shape) :
+    Ref (freshOp s h g rule) (Spec.freshOp (absState s) h g rule) := by
+  unfold freshOp Spec.freshOp
+  rw [abs_get]
+  cases hg : getSlot s.pool h with
+  | none => exact Ref.same hs _
+  | some v =>
+    cases v with
+    | invalid => exact Ref.same hs _
+    | valid sh b =>
+      simp only [Option.map, absHandle]
+      cases hr : rule sh with
+      | error e => cases e <;> exact Ref.same hs _
+      | ok rsh =>
+        obtain ⟨bf, hb, hl⟩ := hs.len h sh b hg
+        have htake : bf.data.take sh.size = bf.data := by rw [← hl]; simp
+        have hd : dataOf s.heap b = bf.data := by simp [dataOf, hb]
+        simp only [deref_of_slot hb hl, htake, hd]
+        exact ⟨allocInto_inv hs g rsh _ (length_fitTo _ _), allocInto_abs hs g rsh _, rfl⟩
 
 /-! ### readall -/
 
@@ -403,6 +563,58 @@ theorem step_ref {s : State} (hs : Inv s) (op : Op) (hop : op ≠ .live) :
     have a2 := replace_abs' i1 (gslot p) none (storable_none _)
     refine ⟨inv_pvalid i2 _, ?_, rfl⟩
     rw [abs_pvalid, a2, a1]; rfl
+  | diadd h g => exact inplace2_ref hs _ h g
+  | disub h g => exact inplace2_ref hs _ h g
+  | dimul h k =>
+    simp only [step, Spec.step]
+    cases hg : getSlot s.pool h with
+    | none => simp only [Spec.inplace1, abs_get, hg, Option.map]; exact Ref.same hs _
+    | some v =>
+      cases v with
+      | invalid => simp only [Spec.inplace1, abs_get, hg, Option.map, absHandle]; exact Ref.same hs _
+      | valid sh b => exact inplace1_ref hs hg _ (fun D hD => length_scale _ _ _ hD)
+  | dsliceBw gy dim off gx => exact bwOp_ref hs _ _ _ _ (fun _ _ _ _ => length_sliceBwK _ _ _ _ _ _)
+  | dpickBw gy dim ids gx => exact bwOp_ref hs _ _ _ _ (fun _ _ _ _ => length_scatter _ _ _ _)
+  | dflipBw gy dim gx => exact bwOp_ref hs _ _ _ _ (fun _ _ _ _ => length_scatter _ _ _ _)
+  | dtransposeBw gy gx => exact bwOp_ref hs _ _ _ _ (fun _ _ _ _ => length_arith _ _ _ _ _)
+  | daddBw gy ga gb => exact abBwOp_ref hs _ _ _ _
+  | dsubBw gy ga gb => exact abBwOp_ref hs _ _ _ _
+  | piaddGrad p g =>
+    simp only [step, Spec.step]
+    have : (absState s).pvalid = s.pvalid := rfl
+    rw [this, abs_get]
+    cases hg : getSlot s.pool g with
+    | none => exact Ref.same hs _
+    | some v =>
+      simp only [Option.map]
+      by_cases hf : s.pvalid.getD p false = true
+      · simp only [hf, if_true]; exact inplace2_ref hs _ _ g
+      · simp only [hf]; exact Ref.same hs _
+  | fcopy h g => exact freshOp_ref hs h g _
+  | fpositive h g =>
+    simp only [step, Spec.step]
+    rw [abs_get]
+    cases hg : getSlot s.pool h with
+    | none => exact Ref.same hs _
+    | some v =>
+      cases v with
+      | invalid => exact Ref.same hs _
+      | valid sh b => exact replace_ref hs g (some (.valid sh b)) (storable_of_slot hs hg) .ok
+  | fconcat1 h g dim => exact freshOp_ref hs h g _
+  | fbconcat1 h g => exact freshOp_ref hs h g _
+  | probe fn h =>
+    simp only [step, Spec.step]
+    rw [abs_get]
+    cases hg : getSlot s.pool h with
+    | none => exact Ref.same hs _
+    | some v =>
+      cases v with
+      | invalid => exact Ref.same hs _
+      | valid sh b =>
+        simp only [Option.map, absHandle]
+        by_cases hp : probeOk fn sh = true
+        · simp only [if_pos hp]; exact Ref.same hs _
+        · simp only [if_neg hp]; exact Ref.same hs _
   | live => exact absurd rfl hop
   | readall =>
     simp only [step, Spec.step]
@@ -450,6 +662,43 @@ theorem spec_inplace2_iso (f : Int → Int → Int) (a : AState) (h g j : Nat) (
     · split <;> simp [spec_setT_ne, hne]
     · rfl
   · rfl
+
+theorem spec_accum_iso (a : AState) (dst src j : Nat) (K : List Int → List Int → List Int) (hne : j ≠ dst) :
+    getSlot (Spec.accum a dst src K).1.pool j = getSlot a.pool j := by
+  unfold Spec.accum; split <;> simp [spec_setT_ne, hne]
+
+theorem spec_bwOp_iso (a : AState) (gy gx j : Nat) (ok : Shape → Shape → R Bool)
+    (K : Shape → Shape → List Int → List Int → List Int) (hne : j ≠ gx) :
+    getSlot (Spec.bwOp a gy gx ok K).1.pool j = getSlot a.pool j := by
+  unfold Spec.bwOp
+  split
+  · split
+    · rfl
+    · split
+      · split <;> (try rfl)
+        exact spec_accum_iso _ _ _ _ _ hne
+      · rfl
+  · rfl
+
+theorem spec_abBwOp_iso (g : Int → Int → Int) (a : AState) (gy ga gb j : Nat) (h1 : j ≠ ga) (h2 : j ≠ gb) :
+    getSlot (Spec.abBwOp g a gy ga gb).1.pool j = getSlot a.pool j := by
+  unfold Spec.abBwOp
+  split
+  · split
+    · rfl
+    · split
+      · split <;> (try rfl)
+        dsimp only
+        split
+        · rw [spec_accum_iso _ _ _ _ _ h2, spec_accum_iso _ _ _ _ _ h1]
+        · exact spec_accum_iso _ _ _ _ _ h1
+      · rfl
+  · rfl
+
+theorem spec_freshOp_iso (a : AState) (h g j : Nat) (rule : Shape → R Shape) (hne : j ≠ g) :
+    getSlot (Spec.freshOp a h g rule).1.pool j = getSlot a.pool j := by
+  unfold Spec.freshOp; split <;> (try rfl)
+  split <;> simp [spec_setT_ne, hne]
 
 theorem spec_withShape_iso (a : AState) (dims : List Nat) (batch : Nat) (k : Shape → AState × Out) (j : Nat)
     (hk : ∀ sh, getSlot (k sh).1.pool j = getSlot a.pool j) :
@@ -525,6 +774,30 @@ theorem spec_isolation (a : AState) (op : Op) (j : Nat) (hj : j ∉ Spec.targets
     simp [Spec.targets] at hj
     simp only [Spec.step]
     simp [spec_setT_ne, hj.1, hj.2]
+  | diadd h g => simp [Spec.targets] at hj; exact spec_inplace2_iso _ _ _ _ _ hj
+  | disub h g => simp [Spec.targets] at hj; exact spec_inplace2_iso _ _ _ _ _ hj
+  | dimul h k => simp [Spec.targets] at hj; exact spec_inplace1_iso _ _ _ _ hj
+  | dsliceBw gy dim off gx => simp [Spec.targets] at hj; exact spec_bwOp_iso _ _ _ _ _ _ hj
+  | dpickBw gy dim ids gx => simp [Spec.targets] at hj; exact spec_bwOp_iso _ _ _ _ _ _ hj
+  | dflipBw gy dim gx => simp [Spec.targets] at hj; exact spec_bwOp_iso _ _ _ _ _ _ hj
+  | dtransposeBw gy gx => simp [Spec.targets] at hj; exact spec_bwOp_iso _ _ _ _ _ _ hj
+  | daddBw gy ga gb => simp [Spec.targets] at hj; exact spec_abBwOp_iso _ _ _ _ _ _ hj.1 hj.2
+  | dsubBw gy ga gb => simp [Spec.targets] at hj; exact spec_abBwOp_iso _ _ _ _ _ _ hj.1 hj.2
+  | piaddGrad p g =>
+    simp [Spec.targets] at hj
+    simp only [Spec.step]
+    split
+    · rfl
+    · split
+      · exact spec_inplace2_iso _ _ _ _ _ hj
+      · rfl
+  | fcopy h g => simp [Spec.targets] at hj; exact spec_freshOp_iso _ _ _ _ _ hj
+  | fpositive h g =>
+    simp [Spec.targets] at hj
+    simp only [Spec.step]; split <;> simp [spec_setT_ne, hj]
+  | fconcat1 h g dim => simp [Spec.targets] at hj; exact spec_freshOp_iso _ _ _ _ _ hj
+  | fbconcat1 h g => simp [Spec.targets] at hj; exact spec_freshOp_iso _ _ _ _ _ hj
+  | probe fn h => simp only [Spec.step]; split <;> (try rfl); split <;> rfl
   | live => rfl
   | readall => rfl
 
@@ -540,12 +813,298 @@ theorem reshape_ne_crash (a b : Shape) : ShapeOps.reshape a b ≠ .error .crash 
 
 theorem flatten_ne_crash (a : Shape) : ShapeOps.flatten a ≠ .error .crash := shape_new_ne_crash _ _
 
-/-- the specification never answers `crash` -/
-theorem spec_never_crashes (a : AState) (op : Op) : (Spec.step a op).2 ≠ .crash := by
+/-- every shape stored in the abstract pool is free of 0-axes -/
+def ANZ (a : AState) : Prop := ∀ i sh vs, getSlot a.pool i = some (some (sh, vs)) → NZ sh
+
+theorem anz_init : ANZ Spec.init := by intro i sh vs h; simp [Spec.init] at h
+
+theorem anz_setT {a : AState} (ha : ANZ a) (h : Nat) (v : Option AVal)
+    (hv : ∀ sh vs, v = some (some (sh, vs)) → NZ sh) : ANZ (Spec.setT a h v) := by
+  intro i sh vs hi
+  simp only [Spec.setT, getSlot_setSlot] at hi
+  by_cases hih : i = h
+  · simp [hih] at hi; exact hv sh vs hi
+  · simp [hih] at hi; exact ha i sh vs hi
+
+theorem anz_pvalid {a : AState} (ha : ANZ a) (l : List Bool) : ANZ { a with pvalid := l } := ha
+
+theorem copyOp_anz {a : AState} (ha : ANZ a) (h g : Nat) : ANZ (Spec.copyOp a h g).1 := by
+  unfold Spec.copyOp
+  split
+  · exact ha
+  · rename_i v hv
+    exact anz_setT ha g _ (fun sh vs e => by cases e; exact ha h sh vs hv)
+
+theorem viewOp_anz {a : AState} (ha : ANZ a) (h g : Nat) (rule : Shape → R Shape)
+    (hr : ∀ x c, NZ x → rule x = .ok c → NZ c) : ANZ (Spec.viewOp a h g rule).1 := by
+  unfold Spec.viewOp
+  split
+  · exact ha
+  · exact ha
+  · rename_i sh vs hv
+    split
+    · exact ha
+    · exact ha
+    · rename_i rsh hrsh
+      exact anz_setT ha g _ (fun sh' vs' e => by cases e; exact hr sh rsh (ha h sh vs hv) hrsh)
+
+theorem inplace1_anz {a : AState} (ha : ANZ a) (h : Nat) (f : Nat → List Int → List Int) :
+    ANZ (Spec.inplace1 a h f).1 := by
+  unfold Spec.inplace1
+  split
+  · exact ha
+  · exact ha
+  · rename_i sh vs hv
+    exact anz_setT ha h _ (fun sh' vs' e => by cases e; exact ha h sh vs hv)
+
+theorem inplace2_anz {a : AState} (ha : ANZ a) (f : Int → Int → Int) (h g : Nat) :
+    ANZ (Spec.inplace2 f a h g).1 := by
+  unfold Spec.inplace2
+  split
+  · rename_i vy vx hy hx
+    split
+    · rename_i sy Y sx X
+      split
+      · exact ha
+      · exact anz_setT ha h _ (fun sh' vs' e => by cases e; exact ha h sy Y hy)
+    · exact ha
+  · exact ha
+
+theorem accum_anz {a : AState} (ha : ANZ a) (dst src : Nat) (K : List Int → List Int → List Int) :
+    ANZ (Spec.accum a dst src K).1 := by
+  unfold Spec.accum
+  split
+  · rename_i sd Y ss X hd hs
+    exact anz_setT ha dst _ (fun sh' vs' e => by cases e; exact ha dst sd Y hd)
+  · exact ha
+
+theorem bwOp_anz {a : AState} (ha : ANZ a) (gy gx : Nat) (ok : Shape → Shape → R Bool)
+    (K : Shape → Shape → List Int → List Int → List Int) : ANZ (Spec.bwOp a gy gx ok K).1 := by
+  unfold Spec.bwOp
+  split
+  · split
+    · exact ha
+    · split
+      · split <;> (try exact ha)
+        exact accum_anz ha _ _ _
+      · exact ha
+  · exact ha
+
+theorem abBwOp_anz {a : AState} (ha : ANZ a) (g : Int → Int → Int) (gy ga gb : Nat) :
+    ANZ (Spec.abBwOp g a gy ga gb).1 := by
+  unfold Spec.abBwOp
+  split
+  · split
+    · exact ha
+    · split
+      · split <;> (try exact ha)
+        dsimp only
+        split
+        · exact accum_anz (accum_anz ha _ _ _) _ _ _
+        · exact accum_anz ha _ _ _
+      · exact ha
+  · exact ha
+
+theorem freshOp_anz {a : AState} (ha : ANZ a) (h g : Nat) (rule : Shape → R Shape)
+    (hr : ∀ x c, NZ x → rule x = .ok c → NZ c) : ANZ (Spec.freshOp a h g rule).1 := by
+  unfold Spec.freshOp
+  split
+  · exact ha
+  · exact ha
+  · rename_i sh vs hv
+    split
+    · exact ha
+    · exact ha
+    · rename_i rsh hrsh
+      exact anz_setT ha g _ (fun sh' vs' e => by cases e; exact hr sh rsh (ha h sh vs hv) hrsh)
+
+theorem withShape_anz {a : AState} (ha : ANZ a) (dims : List Nat) (batch : Nat) (k : Shape → AState × Out)
+    (hk : ∀ sh, Shape.new dims batch = .ok sh → ANZ (k sh).1) : ANZ (Spec.withShape a dims batch k).1 := by
+  unfold Spec.withShape
+  split
+  · exact ha
+  · exact ha
+  · rename_i sh hsh; exact hk sh hsh
+
+theorem step_anz {a : AState} (ha : ANZ a) (op : Op) : ANZ (Spec.step a op).1 := by
+  cases op with
+  | new h dims batch vals =>
+    apply withShape_anz ha; intro sh hsh; (try dsimp only)
+    split
+    · exact ha
+    · exact anz_setT ha h _ (fun sh' vs' e => by cases e; exact shape_new_nz hsh)
+  | copy h g => exact copyOp_anz ha h g
+  | copyctor h g => exact copyOp_anz ha h g
+  | move h g =>
+    simp only [Spec.step]
+    split
+    · exact ha
+    · rename_i v hv
+      split
+      · exact ha
+      · apply anz_setT _ h _ (fun sh' vs' e => by cases e)
+        exact anz_setT ha g _ (fun sh vs e => by cases e; exact ha h sh vs hv)
+  | reshape h g dims batch =>
+    simp only [Spec.step]
+    split
+    · exact ha
+    · apply withShape_anz ha; intro nsh hn
+      exact viewOp_anz ha h g _ (fun x c _ hc => reshape_nz hc (shape_new_nz hn))
+  | flatten h g => exact viewOp_anz ha h g _ (fun x c _ hc => flatten_nz hc)
+  | reset h k => exact inplace1_anz ha h _
+  | resetv h vals =>
+    simp only [Spec.step]
+    split
+    · exact ha
+    · exact ha
+    · split
+      · exact ha
+      · exact inplace1_anz ha h _
+  | iadd h g => exact inplace2_anz ha _ h g
+  | isub h g => exact inplace2_anz ha _ h g
+  | imul h k => exact inplace1_anz ha h _
+  | invalidate h =>
+    simp only [Spec.step]
+    split
+    · exact ha
+    · exact anz_setT ha h _ (fun sh' vs' e => by cases e)
+  | drop h =>
+    simp only [Spec.step]
+    split
+    · exact ha
+    · exact anz_setT ha h _ (fun sh' vs' e => by cases e)
+  | read h => simp only [Spec.step]; split <;> exact ha
+  | shape h => simp only [Spec.step]; split <;> exact ha
+  | valid h => simp only [Spec.step]; split <;> exact ha
+  | device h => simp only [Spec.step]; split <;> exact ha
+  | param p dims batch vals =>
+    apply withShape_anz ha; intro sh hsh; (try dsimp only)
+    split
+    · exact ha
+    · split
+      · exact ha
+      · apply anz_pvalid
+        apply anz_setT _ _ _ (fun sh' vs' e => by cases e; exact shape_new_nz hsh)
+        exact anz_setT ha _ _ (fun sh' vs' e => by cases e; exact shape_new_nz hsh)
+  | pvalue p g => simp only [Spec.step]; split; exact copyOp_anz ha _ g; exact ha
+  | pgrad p g => simp only [Spec.step]; split; exact copyOp_anz ha _ g; exact ha
+  | ptensor p g => simp only [Spec.step]; split; exact copyOp_anz ha _ g; exact ha
+  | piaddValue p g =>
+    simp only [Spec.step]
+    split
+    · exact ha
+    · split
+      · exact inplace2_anz ha _ _ g
+      · exact ha
+  | pdrop p =>
+    simp only [Spec.step]
+    apply anz_pvalid
+    apply anz_setT _ _ _ (fun sh' vs' e => by cases e)
+    exact anz_setT ha _ _ (fun sh' vs' e => by cases e)
+  | live => exact ha
+  | readall => exact ha
+  | diadd h g => exact inplace2_anz ha _ h g
+  | disub h g => exact inplace2_anz ha _ h g
+  | dimul h k => exact inplace1_anz ha h _
+  | dsliceBw gy dim off gx => exact bwOp_anz ha _ _ _ _
+  | dpickBw gy dim ids gx => exact bwOp_anz ha _ _ _ _
+  | dflipBw gy dim gx => exact bwOp_anz ha _ _ _ _
+  | dtransposeBw gy gx => exact bwOp_anz ha _ _ _ _
+  | daddBw gy ga gb => exact abBwOp_anz ha _ _ _ _
+  | dsubBw gy ga gb => exact abBwOp_anz ha _ _ _ _
+  | piaddGrad p g =>
+    simp only [Spec.step]
+    split
+    · exact ha
+    · split
+      · exact inplace2_anz ha _ _ g
+      · exact ha
+  | fcopy h g => exact freshOp_anz ha h g _ (fun x c hx hc => by simp [pure, Except.pure] at hc; subst hc; exact hx)
+  | fpositive h g =>
+    simp only [Spec.step]
+    split
+    · exact ha
+    · exact ha
+    · rename_i v hv
+      exact anz_setT ha g _ (fun sh vs e => by cases e; exact ha h sh vs hv)
+  | fconcat1 h g dim => exact freshOp_anz ha h g _ (fun x c hx hc => concat1_nz hx hc)
+  | fbconcat1 h g => exact freshOp_anz ha h g _ (fun x c hx hc => bconcat1_nz hx hc)
+  | probe fn h => simp only [Spec.step]; split <;> (try exact ha); split <;> exact ha
+
+theorem run_anz {a : AState} (ha : ANZ a) (ops : List Op) : ANZ (Spec.run a ops).1 := by
+  induction ops generalizing a with
+  | nil => exact ha
+  | cons op ops ih => exact ih (step_anz ha op)
+
+theorem spec_accum_ne_crash (a : AState) (dst src : Nat) (K : List Int → List Int → List Int) :
+    (Spec.accum a dst src K).2 ≠ .crash := by
+  unfold Spec.accum; split <;> simp
+
+theorem spec_bwOp_ne_crash {a : AState} (ha : ANZ a) (gy gx : Nat) (ok : Shape → Shape → R Bool)
+    (K : Shape → Shape → List Int → List Int → List Int)
+    (hok : ∀ sy sx, NZ sx → ok sy sx ≠ .error .crash) : (Spec.bwOp a gy gx ok K).2 ≠ .crash := by
+  unfold Spec.bwOp
+  split
+  · rename_i vy vx hy hx
+    split
+    · simp
+    · split
+      · rename_i sy Y sx X
+        split
+        · rename_i hc; exact absurd hc (hok sy sx (ha gx sx X hx))
+        · simp
+        · simp
+        · exact spec_accum_ne_crash _ _ _ _
+      · simp
+  · simp
+
+theorem spec_abBwOp_ne_crash (g : Int → Int → Int) (a : AState) (gy ga gb : Nat) :
+    (Spec.abBwOp g a gy ga gb).2 ≠ .crash := by
+  unfold Spec.abBwOp
+  split
+  · split
+    · simp
+    · split
+      · split
+        · rename_i hc; exact absurd hc (abBwOk_ne_crash _ _ _)
+        · simp
+        · simp
+        · dsimp only
+          split
+          · exact spec_accum_ne_crash _ _ _ _
+          · exact spec_accum_ne_crash _ _ _ _
+      · simp
+  · simp
+
+theorem spec_freshOp_ne_crash {a : AState} (ha : ANZ a) (h g : Nat) (rule : Shape → R Shape)
+    (hr : ∀ sh, NZ sh → rule sh ≠ .error .crash) : (Spec.freshOp a h g rule).2 ≠ .crash := by
+  unfold Spec.freshOp
+  split
+  · simp
+  · simp
+  · rename_i sh vs hv
+    split
+    · rename_i hc; exact absurd hc (hr sh (ha h sh vs hv))
+    · simp
+    · simp
+
+/-- the specification never answers `crash` (on pools without 0-axes, which is
+what every history produces: `run_anz`) -/
+theorem spec_never_crashes {a : AState} (ha : ANZ a) (op : Op) : (Spec.step a op).2 ≠ .crash := by
   have hnew := shape_new_ne_crash
   have hre := reshape_ne_crash
   have hfl := flatten_ne_crash
-  cases op <;>
+  cases op
+  case dsliceBw gy dim off gx => exact spec_bwOp_ne_crash ha _ _ _ _ (fun sy sx _ => sliceBwOk_ne_crash _ _ _ _)
+  case dpickBw gy dim ids gx => exact spec_bwOp_ne_crash ha _ _ _ _ (fun sy sx hx => pickBwOk_ne_crash _ _ _ hx)
+  case dflipBw gy dim gx => exact spec_bwOp_ne_crash ha _ _ _ _ (fun sy sx _ => flipBwOk_ne_crash _ _)
+  case dtransposeBw gy gx => exact spec_bwOp_ne_crash ha _ _ _ _ (fun sy sx _ => transposeBwOk_ne_crash _ _)
+  case daddBw gy ga gb => exact spec_abBwOp_ne_crash _ _ _ _ _
+  case dsubBw gy ga gb => exact spec_abBwOp_ne_crash _ _ _ _ _
+  case fcopy h g => exact spec_freshOp_ne_crash ha _ _ _ (fun sh _ => by simp [pure, Except.pure])
+  case fconcat1 h g dim => exact spec_freshOp_ne_crash ha _ _ _ (fun sh hs => concat1_ne_crash hs _)
+  case fbconcat1 h g => exact spec_freshOp_ne_crash ha _ _ _ (fun sh _ => bconcat1_ne_crash _)
+  all_goals
     simp only [Spec.step, Spec.copyOp, Spec.viewOp, Spec.inplace1, Spec.inplace2, Spec.withShape] <;>
     (repeat' split) <;> simp_all
 
@@ -564,5 +1123,46 @@ theorem filter_isSome_of_all_none (hp : List (Option Buf)) (h : ∀ b, getSlot h
     simp only [getSlot] at h0
     subst h0
     simpa using ih (fun b => by simpa [getSlot] using h (b + 1))
+
+/-! ### invalid operands of the Device entry points -/
+
+theorem bwOp_invalid {s : State} {gy gx : Nat} (ok : Shape → Shape → R Bool)
+    (K : Shape → Shape → List Int → List Int → List Int) (hne : gy ≠ gx)
+    (hy : (getSlot s.pool gy).isSome = true) (hx : (getSlot s.pool gx).isSome = true)
+    (hinv : getSlot s.pool gy = some .invalid ∨ getSlot s.pool gx = some .invalid) :
+    bwOp s gy gx ok K = (s, .err) := by
+  unfold bwOp
+  cases h1 : getSlot s.pool gy with
+  | none => simp [h1] at hy
+  | some vy =>
+    cases h2 : getSlot s.pool gx with
+    | none => simp [h2] at hx
+    | some vx =>
+      simp only [if_neg hne]
+      rcases hinv with h | h
+      · rw [h1] at h; cases h; cases vx <;> rfl
+      · rw [h2] at h; cases h; cases vy <;> rfl
+
+theorem abBwOp_invalid {s : State} {gy ga gb : Nat} (g : Int → Int → Int)
+    (hne : ¬(gy = ga ∨ gy = gb ∨ ga = gb))
+    (hy : (getSlot s.pool gy).isSome = true) (ha : (getSlot s.pool ga).isSome = true)
+    (hb : (getSlot s.pool gb).isSome = true)
+    (hinv : getSlot s.pool gy = some .invalid ∨ getSlot s.pool ga = some .invalid ∨ getSlot s.pool gb = some .invalid) :
+    abBwOp g s gy ga gb = (s, .err) := by
+  unfold abBwOp
+  cases h1 : getSlot s.pool gy with
+  | none => simp [h1] at hy
+  | some vy =>
+    cases h2 : getSlot s.pool ga with
+    | none => simp [h2] at ha
+    | some va =>
+      cases h3 : getSlot s.pool gb with
+      | none => simp [h3] at hb
+      | some vb =>
+        simp only [if_neg hne]
+        rcases hinv with h | h | h
+        · rw [h1] at h; cases h; cases va <;> cases vb <;> rfl
+        · rw [h2] at h; cases h; cases vy <;> cases vb <;> rfl
+        · rw [h3] at h; cases h; cases vy <;> cases va <;> rfl
 
 end Primitiv.Cow
